@@ -39,7 +39,7 @@ def run(ctx):
     # 3. random large sets, skewed prefixes, every transport, legacy remote
     ctx.go_test("./ldiff", run="TestRandomC07$", env={"VERIF_TUPLES": tuples}, timeout=3000, name="random set pairs")
     # 4. code -> spec
-    files = ["u2_cur", "u2_leg", "u3_cur", "u3_leg", "u4_cur"]
+    files = ["u2_cur", "u2_leg", "u3_cur", "u3_leg", "u4_cur"] if thorough else ["u2_cur", "u2_leg", "u3_cur"]
     lc.record_and_validate(ctx, tuples, files, "ObsDiffExact", 150 if thorough else 12)
     if thorough:
         n = lc.record_and_validate(ctx, tuples, ["u2_cur", "u3_cur"], "ObsDiffExact", 6, env={"VERIF_CORRUPT": "diff"}, expect_reject=True)
